@@ -16,7 +16,7 @@ use crate::ring_like::digest;
 #[cfg(feature = "pem")]
 use crate::ENCODE_CONFIG;
 use crate::{
-	ensure_ia5, oid, write_distinguished_name, write_dt_utc_or_generalized,
+	ensure_encodable_time, ensure_ia5, oid, write_distinguished_name, write_dt_utc_or_generalized,
 	write_x509_authority_key_identifier, write_x509_extension, DistinguishedName, Error, Issuer,
 	KeyIdMethod, KeyPair, KeyUsagePurpose, SanType, SerialNumber,
 };
@@ -862,13 +862,17 @@ impl CertificateParams {
 		});
 		for subtree in subtrees {
 			match subtree {
-				GeneralSubtree::Rfc822Name(name) | GeneralSubtree::DnsName(name) => ensure_ia5(name)?,
+				GeneralSubtree::Rfc822Name(name) | GeneralSubtree::DnsName(name) => {
+					ensure_ia5(name)?
+				},
 				GeneralSubtree::DirectoryName(_) | GeneralSubtree::IpAddress(_) => {},
 			}
 		}
 		for distribution_point in &self.crl_distribution_points {
 			distribution_point.validate()?;
 		}
+		ensure_encodable_time(self.not_before)?;
+		ensure_encodable_time(self.not_after)?;
 		Ok(())
 	}
 
@@ -900,11 +904,11 @@ fn write_general_subtrees(writer: DERWriter, tag: u64, general_subtrees: &[Gener
 						GeneralSubtree::DirectoryName(name) => writer
 							.next()
 							.write_tagged(tag, |writer| write_distinguished_name(writer, name)),
-						GeneralSubtree::IpAddress(subnet) => writer
-							.next()
-							.write_tagged_implicit(tag, |writer| {
+						GeneralSubtree::IpAddress(subnet) => {
+							writer.next().write_tagged_implicit(tag, |writer| {
 								writer.write_bytes(&subnet.to_bytes())
-							}),
+							})
+						},
 					}
 					// minimum must be 0 (the default) and maximum must be absent
 				});
